@@ -331,6 +331,43 @@ impl World {
         forall|q: PathV| #[trigger] self.files.contains_key(q) && self.files[q] == ino ==> !self.in_cache_namespace(q) && !self.is_ro_entry(q)
     }
 
+    /// PROTOCOL for creating, truncating or opening a file for writing BY NAME: neither the name nor any other
+    /// name of the same file is one a lookup resolves.
+    pub open spec fn may_write_open(self, p: PathV) -> bool {
+        &&& !self.in_cache_namespace(p) && !self.is_entry(p) && !self.is_ro_entry(p) && !self.under_ro(p)
+        &&& !self.dirs.contains(p)
+        &&& self.files.contains_key(p) ==> forall|q: PathV| #[trigger] self.files.contains_key(q) && self.files[q] == self.files[p] ==> !self.in_cache_namespace(q) && !self.is_entry(q)
+            && !self.is_ro_entry(q)
+    }
+
+    /// Effect of a successful open-for-writing of `p` (O_CREAT / O_TRUNC / O_APPEND / plain O_WRONLY alike): `p` names
+    /// `ino` afterwards; an existing file keeps everything but possibly its bytes and its mtime; a new one is empty.
+    pub open spec fn write_opened(self, old: World, p: PathV, ino: InodeId) -> bool {
+        &&& self.files.contains_key(p) && self.files[p] == ino
+        &&& self.dirs == old.dirs
+        &&& if old.files.contains_key(p) {
+            &&& ino == old.files[p]
+            &&& self.files == old.files
+            &&& self.inodes == old.inodes.insert(ino, Inode { content: self.inodes[ino].content, mtime: self.inodes[ino].mtime, synced: false, ..old.inodes[ino] })
+            &&& (self.inodes[ino].mtime == old.inodes[ino].mtime || self.inodes[ino].mtime == trunc(old.now, old.gran))
+        } else {
+            &&& !old.inodes.contains_key(ino)
+            &&& self.files == old.files.insert(p, ino)
+            &&& self.inodes == old.inodes.insert(
+                ino,
+                Inode {
+                    content: Seq::<u8>::empty(),
+                    writable: true,
+                    mode: self.inodes[ino].mode,
+                    mtime: trunc(old.now, old.gran),
+                    atime: trunc(old.now, old.gran),
+                    synced: false,
+                    flush_failed: false,
+                },
+            )
+        }
+    }
+
     /// No key-named file under a read-only root is a link to `ino` (so re-moding `ino` cannot touch a read-only cache).
     pub open spec fn not_ro_linked(self, ino: InodeId) -> bool {
         forall|q: PathV| #[trigger] self.files.contains_key(q) && self.files[q] == ino ==> !self.is_ro_entry(q)
